@@ -709,6 +709,29 @@ func enrollCaseBody(c *engine.Ctx, ec enrollCase) {
 		}
 	}
 
+	// ---- node side: a refused response first, on the node's own credentials object -------------------
+	// (a node that was handed a wrong answer - another node's, or one whose server key was replaced on the
+	// way - refuses it and then gets the right one; the refusal must not stand in the way of the honest answer)
+	if (ec.Rep+int(ec.Salt&7))%2 == 0 {
+		for _, sub := range subs {
+			if sub.Class != "server-key" && sub.Class != "other-key" {
+				continue
+			}
+			if o, ok := enrollOpen(sub.Resp.EncryptedNodeCredentials, n.Enc.Priv, sub.Resp.ServerEncryptionPublicKeyBytes, keyID); ok && bytes.Equal(o.RegistrationNonce, n.Nonce) {
+				continue
+			}
+			var herr error
+			if p, st := engine.Guard(func() { _, herr = n.Handle(sub.Resp) }); p != nil {
+				viol("panic:"+engine.LibraryFrame(st), fmt.Sprintf("HandleFetchNodeCredentialsResponse panicked on a substituted response (%s): %v", sub.Name, p))
+				return
+			}
+			if herr != nil {
+				r.Count("refused_answer_before_the_honest_one:"+sub.Class, 1)
+			}
+			break
+		}
+	}
+
 	// ---- node side: the honest response ---------------------------------------
 	if _, err := n.Handle(resp); err != nil {
 		viol("node-rejected-honest-response:"+ec.Flow, "the node refused the honest response: "+err.Error())
